@@ -84,6 +84,9 @@ func (e *dtEnv) eval1(v ssa.Value) (dval, bool) {
 		if n, ok := ConstInt(x); ok {
 			return dI(n), true
 		}
+		if IsNilConst(x) {
+			return dI(0), true // pointers / interfaces observed as 0 (nil) or 1 (non-nil)
+		}
 		return e.fail(v, "constant of unsupported kind")
 	case *ssa.Convert:
 		return e.eval(x.X)
@@ -218,14 +221,15 @@ func dtWalk(atom func(ssa.Value) (string, bool), vals map[string]dval, start *ss
 		seen[b] = true
 		var next *ssa.BasicBlock
 		for _, in := range b.Instrs[idx:] {
+			if lab, ok := action(in); ok {
+				// a call can be both an action and (its result) an observation; a label may name several actions ("a+b")
+				row.actions = append(row.actions, strings.Split(lab, "+")...)
+				continue
+			}
 			if v, isV := in.(ssa.Value); isV {
 				if _, isAtom := atom(v); isAtom {
 					continue // an observation, not an action
 				}
-			}
-			if lab, ok := action(in); ok {
-				row.actions = append(row.actions, lab)
-				continue
 			}
 			switch t := in.(type) {
 			case *ssa.Range, *ssa.Next:
@@ -269,6 +273,9 @@ func dtWalk(atom func(ssa.Value) (string, bool), vals map[string]dval, start *ss
 		e.prev[next] = b
 		if stop != nil && stop(next) {
 			row.end, row.ok = "next", true
+			if from != nil && next != from {
+				row.end = "exit" // left the loop instead of going on to its next iteration
+			}
 			return row
 		}
 		b, idx = next, 0
@@ -326,6 +333,7 @@ type dtExpect struct {
 	must    []string
 	mustNot []string
 	ret     *int64 // required value of the first return operand (nil: not fixed)
+	end     string // required way the row ends ("next": goes on to the next iteration; "" : not fixed)
 	why     string // the clause of the statement
 }
 
@@ -391,6 +399,9 @@ func (r *R) dtCheck(rule string, fn *ssa.Function, construct string, dom map[str
 				c.bad = "row " + desc + ": action " + m + " is taken, which the statement excludes"
 			}
 		}
+		if ex.end != "" && row.end != ex.end && c.bad == "" {
+			c.bad = "row " + desc + ": the step ends with `" + row.end + "`, the statement requires `" + ex.end + "`"
+		}
 		if ex.ret != nil && c.bad == "" {
 			if row.end != "return" || !row.retOK || len(row.ret) == 0 {
 				if c.und == "" {
@@ -422,17 +433,23 @@ func (r *R) dtCheck(rule string, fn *ssa.Function, construct string, dom map[str
 // moduleAction labels calls/go/defer to functions of the repository's own packages and interface invokes whose
 // method is declared in the repository; everything else (logging, fmt, time, metrics) is not an action.
 func moduleAction(in ssa.Instruction) (string, bool) {
+	return moduleActionDepth(in, 0)
+}
+
+func moduleActionDepth(in ssa.Instruction, depth int) (string, bool) {
 	c, ok := in.(ssa.CallInstruction)
 	if !ok {
 		return "", false
 	}
 	com := c.Common()
 	pre := ""
-	switch in.(type) {
-	case *ssa.Go:
-		pre = "go "
-	case *ssa.Defer:
-		pre = "defer "
+	if depth == 0 {
+		switch in.(type) {
+		case *ssa.Go:
+			pre = "go "
+		case *ssa.Defer:
+			pre = "defer "
+		}
 	}
 	if com.IsInvoke() {
 		if com.Method.Pkg() != nil && strings.HasPrefix(com.Method.Pkg().Path(), modPrefix) {
@@ -440,7 +457,29 @@ func moduleAction(in ssa.Instruction) (string, bool) {
 		}
 		return "", false
 	}
-	if f := StaticCallee(com); f != nil && f.Pkg != nil && strings.HasPrefix(f.Pkg.Pkg.Path(), modPrefix) {
+	f := StaticCallee(com)
+	if f == nil {
+		if mc, isMC := com.Value.(*ssa.MakeClosure); isMC {
+			f, _ = mc.Fn.(*ssa.Function)
+		}
+	}
+	if f == nil {
+		return "", false
+	}
+	if f.Parent() != nil && depth < 2 {
+		// an anonymous function called / spawned in place: its own actions count (`go func() { sch.kill(…) }()`)
+		var labs []string
+		allInstrs(f, func(x ssa.Instruction) {
+			if l, ok := moduleActionDepth(x, depth+1); ok {
+				labs = append(labs, pre+l)
+			}
+		})
+		if len(labs) == 0 {
+			return "", false
+		}
+		return strings.Join(labs, "+"), true
+	}
+	if f.Pkg != nil && strings.HasPrefix(f.Pkg.Pkg.Path(), modPrefix) {
 		return pre + f.Name(), true
 	}
 	return "", false
